@@ -296,6 +296,38 @@ def run(R, only=None):
             steps.append({"sql": "insert into a values " + ", ".join("(" + ", ".join(c02.lit(v) for v in r) + ")" for r in batch)})
         steps += tail_steps(q)
         cases.append({"engine": rng.choice(["disk", "disk", "mem"]), "steps": steps, "q": q, "ks": ks, "tags": {"keyed"}, "a": a_b, "b": []})
+    # join keys of different numeric types on the two sides (INT = BIGINT, INT = SMALLINT): `=` compares by value, so must the
+    # hash / merge join the optimiser chooses
+    for i in range(60 if R.tier == "quick" else 800):
+        rng = R.rng
+        jt = rng.choice(["join", "join", "left join", "right join", "full join"])
+        q = rng.choice([
+            f"select a.x, w.k from a {jt} w on a.x = w.k", f"select a.x, w.z from a {jt} w on a.y = w.z", f"select a.x, w.k from a {jt} w on w.k = a.x",
+            f"select a.x, w.k, w.z from a {jt} w on a.x = w.k and a.y = w.z", "select a.x, w.v from a join w on a.x = w.k and a.y < w.v",
+            "select a.x, w.v from a left join w on a.x = w.k and a.y < w.v", "select x, y from a where exists (select 1 from w where w.k = a.x)",
+            "select x, y from a where not exists (select 1 from w where w.k = a.x and w.v > a.y)", "select x, y from a where not exists (select 1 from w where w.z = a.y)",
+            "select p.k, pw.k from p join pw on p.k = pw.k", "select p.k, pw.v from p left join pw on p.k = pw.k", "select p.k, pw.v from p full join pw on p.k = pw.k",
+            "select a.x, w.k from a join w on a.x + 1 = w.k", "select a.x, count(*) from a join w on a.x = w.k group by a.x",
+            "select a.x, w.k from a, w where a.x = w.k and w.z > 0", "select a.x, pw.v from a join pw on a.x = pw.k where pw.k > 0",
+        ])
+        a_b, _ = c02.gen_db(rng)
+        dom = [None, 0, 1, 2, 3]
+        wrows = [(rng.choice(dom), rng.choice(dom), rng.choice(dom)) for _ in range(rng.randint(0, 6))]
+        pk = rng.sample(range(6), rng.randint(0, 5))
+        pwk = rng.sample(range(6), rng.randint(0, 5))
+        steps = [{"sql": "create table a(x int, y int, s varchar)"}, {"sql": "create table w(k bigint, z smallint, v int)"},
+                 {"sql": "create table p(k int primary key, v int)"}, {"sql": "create table pw(k bigint primary key, v int)"}]
+        for batch in a_b:
+            steps.append({"sql": "insert into a values " + ", ".join("(" + ", ".join(c02.lit(v) for v in r) + ")" for r in batch)})
+        if wrows:
+            steps.append({"sql": "insert into w values " + ", ".join("(" + ", ".join(c02.lit(v) for v in r) + ")" for r in wrows)})
+        for nm, ks_ in (("p", pk), ("pw", pwk)):
+            for part in (ks_[: len(ks_) // 2], ks_[len(ks_) // 2:]):
+                if part:
+                    steps.append({"sql": f"insert into {nm} values " + ", ".join(f"({k}, {k % 3})" for k in part)})
+        steps += tail_steps(q)
+        tags = {"join", "mixed-width"} | ({"right"} if "right join" in q else set()) | ({"full"} if "full join" in q else set())
+        cases.append({"engine": rng.choice(["disk", "mem"]), "steps": steps, "q": q, "ks": None, "tags": tags, "a": a_b, "b": []})
     outs = run_harness("sql", [{"engine": c["engine"], "steps": c["steps"]} for c in cases], jobs=16)
     kinds, compared = {}, 0
     kf_attr = [0]
